@@ -9,6 +9,7 @@ from .core import Report, rs
 CANDS = ["A", "B", "C"]
 SHARES = [F(1, 3), F(1, 2), F(3, 5), F(2, 3)]
 _LOSERS = {}
+_LISTS = {}
 TRUTHY = [True, 1, 5, "marked"]
 FALSY = [False, 0, "", None]     # None = the candidate key is absent
 
@@ -71,7 +72,9 @@ def run_profile(tid, ballots, rng):
     order = list(range(len(ballots)))
     rng.shuffle(order)          # list order must not matter; the record keeps the shuffled order
     bl = [ballots[k] for k in order]
-    cvrs = []
+    # the card list is a long-lived object too: one list per length, refilled in place from profile to profile
+    cvrs = _LISTS.setdefault(len(bl), [])
+    cvrs.clear()
     for k, b in enumerate(bl):
         votes = {}
         if b["has"]:
